@@ -129,7 +129,9 @@ func execute(req *wire.Request) *wire.Result {
 	default:
 		for i := range req.Tasks {
 			simrt.ResetTask()
+			restore := setEnv(req.Tasks[i].Env)
 			res.Tasks[i] = runTask(i, &req.Tasks[i])
+			restore()
 		}
 	}
 	p := simrt.Snapshot()
@@ -140,6 +142,33 @@ func execute(req *wire.Request) *wire.Result {
 	}
 	res.Instrumented = p.Steps > 0
 	return res
+}
+
+// setEnv applies a task's environment ("" unsets) and returns the undo.
+func setEnv(env map[string]string) func() {
+	saved := map[string]*string{}
+	for k, v := range env {
+		if old, ok := os.LookupEnv(k); ok {
+			o := old
+			saved[k] = &o
+		} else {
+			saved[k] = nil
+		}
+		if v == "" {
+			os.Unsetenv(k)
+		} else {
+			os.Setenv(k, v)
+		}
+	}
+	return func() {
+		for k, v := range saved {
+			if v == nil {
+				os.Unsetenv(k)
+			} else {
+				os.Setenv(k, *v)
+			}
+		}
+	}
 }
 
 type taskState struct {
